@@ -313,3 +313,126 @@ def ProdSpec(result, s, t, prec, rnd):
     if s[1] == 0 or t[1] == 0:
         return result == fzero
     return CRoundOrExact(result, xor01(s[0], t[0]), s[1] * t[1], s[2] + t[2], prec, rnd)
+
+
+def MulIntSpec(result, s, n, prec, rnd):
+    """result == round_prec(s * n) for canonical s and a Python int n (prec >= 1)"""
+    if s == fnan:
+        return result == fnan
+    if s == finf or s == fninf:
+        if n == 0:
+            return result == fnan
+        if (n > 0) == (s == finf):
+            return result == finf
+        return result == fninf
+    if s[1] == 0 or n == 0:
+        return result == fzero
+    if n < 0:
+        return CRound(result, 1 - s[0], s[1] * (-n), s[2], prec, rnd)
+    return CRound(result, s[0], s[1] * n, s[2], prec, rnd)
+
+
+def FarApart(s, t, prec):
+    """the sub-case of addition that libmpf handles by perturbation: both finite non-zero,
+    exponents more than 100 apart, rounding requested, and the tops of the operands more
+    than max(prec, bits of the larger operand)+4 bits apart"""
+    if s[1] == 0 or t[1] == 0 or prec == 0:
+        return False
+    d = s[2] - t[2]
+    if d > 100:
+        return s[3] + s[2] - t[3] - t[2] > max(prec, s[3]) + 4
+    if d < -100:
+        return t[3] + t[2] - s[3] - s[2] > max(prec, t[3]) + 4
+    return False
+
+
+# ----------------------------------------------------------------------------- order and hash
+
+def val_lt(s, t):
+    """s < t for canonical non-nan values over the extended reals (exact comparison of
+    (-1)**sign * man * 2**exp)"""
+    if s == finf or t == fninf:
+        return False
+    if s == fninf or t == finf:
+        return True
+    E = min(s[2], t[2])
+    return (1 - 2 * s[0]) * s[1] * pow2(s[2] - E) < (1 - 2 * t[0]) * t[1] * pow2(t[2] - E)
+
+
+def CmpSpec(result, s, t):
+    """three-way comparison of canonical non-nan values"""
+    if val_lt(s, t):
+        return result == -1
+    if val_lt(t, s):
+        return result == 1
+    return result == 0
+
+
+HASH_P = 2305843009213693951      # 2**61 - 1  (sys.hash_info.modulus on 64-bit CPython)
+
+
+def HashSpec(result, s):
+    """CPython's numeric hash of the exact value of a canonical raw mpf (before the -1 -> -2
+    adjustment that CPython applies to every __hash__ result): inf/nan as sys.hash_info says,
+    otherwise sign * (man * 2**exp mod P) with 2**exp reduced through 2**61 == 1 (mod P)."""
+    if s == fnan:
+        return result == 0
+    if s == finf:
+        return result == 314159
+    if s == fninf:
+        return result == -314159
+    h = ((s[1] % HASH_P) * pow2(s[2] % 61)) % HASH_P
+    if s[0] == 1:
+        return result == -h
+    return result == h
+
+
+# ----------------------------------------------------------------------------- division
+
+def rounded_okQ(R, N, D, P, rnd, sign):
+    """the integer R is (N/D)/P rounded as mode `rnd` prescribes for a number of sign `sign`
+    (N, D, P positive integers; order-theoretic, cross-multiplied)"""
+    if rnd_trunc(rnd, sign):
+        return R * P * D <= N and N < (R * P + P) * D
+    if rnd_away(rnd, sign):
+        return (R * P - P) * D < N and N <= R * P * D
+    d = 2 * N - 2 * R * P * D
+    return -(P * D) <= d and d <= P * D and implies(d == P * D or d == -(P * D), R % 2 == 0)
+
+
+def CRoundQ(x, sign, N, D, E, prec, rnd):
+    """x is the correctly rounded prec-bit value of (-1)**sign * (N/D) * 2**E for integers
+    N, D >= 1 scaled so that floor(N/D) has more than prec bits (so the binade of N/D is
+    bitlen(floor(N/D)) and the unit in the last place is 2**(bitlen - prec) >= 2)."""
+    q = fdiv(N, D)
+    n = bitlen(q) - prec
+    return (x[0] == sign and x[1] >= 1 and x[1] % 2 == 1 and x[3] == bitlen(x[1])
+            and x[2] >= E + n
+            and rounded_okQ(x[1] * pow2(x[2] - E - n), N, D, pow2(n), rnd, sign))
+
+
+def div_extra(sbc, tbc, prec):
+    if prec - sbc + tbc + 5 < 5:
+        return 5
+    return prec - sbc + tbc + 5
+
+
+def QuotSpec(result, s, t, prec, rnd):
+    """result == round_prec(s / t) for canonical s, t with t != 0 (prec >= 1):
+    nan propagates, inf/inf = nan, x/inf = 0, inf/x = +-inf, 0/x = 0"""
+    if s == fnan or t == fnan:
+        return result == fnan
+    if is_nonfinite(s):
+        if is_nonfinite(t):
+            return result == fnan
+        if sgn_of(s) * sgn_of(t) > 0:
+            return result == finf
+        return result == fninf
+    if is_nonfinite(t):
+        return result == fzero
+    if s[1] == 0:
+        return result == fzero
+    if t[1] == 1:
+        return CRound(result, xor01(s[0], t[0]), s[1], s[2] - t[2], prec, rnd)
+    g = div_extra(s[3], t[3], prec)
+    return CRoundQ(result, xor01(s[0], t[0]), s[1] * pow2(g), t[1], s[2] - t[2] - g, prec, rnd)
